@@ -614,7 +614,7 @@ func (s *bitcoinStream) genDepositTxs(r *tr.Rng) {
 		// (txid, output), not by txid)
 		second := -1
 		var evm2 []byte
-		if version == 0 && r.Chance(15) {
+		if version == 0 && r.Chance(pick(s.genesisValidTax, 45, 15)) {
 			evm2 = s.evms[r.Intn(len(s.evms))]
 			if sc2, _ := s.depositOutputs(key, 0, evm2, p.DepositMagicPrefix); sc2 != nil {
 				second = len(outs)
@@ -699,6 +699,32 @@ func (s *bitcoinStream) genDeposits(r *tr.Rng) {
 			}
 			cls = fmt.Sprintf("+batch-of-%d", want)
 			n = 0
+		}
+	}
+	// both deposit outputs of one bitcoin transaction, well-formed, credited in one clean batch (export profiles: the credited
+	// set then holds two entries of one txid when the state is exported)
+	cleanBatch := false
+	if s.genesisValidTax && n > 0 && r.Chance(60) {
+		for _, x := range depCands {
+			sb := x.sibling
+			if sb == nil || x.used || sb.used {
+				continue
+			}
+			bad := false
+			for _, w := range []string{"flipped", "script-for", "leaf", "negative", "below", "min-1", "schnorr", "size"} {
+				bad = bad || strings.Contains(x.cls, w)
+			}
+			b, idx := s.findTx(x.tx.txid)
+			if bad || b == nil {
+				continue
+			}
+			x.used, sb.used = true, true
+			headers[b.height] = b.header
+			add(item(x.version, b.height, uint32(idx), x.tx.raw, x.outIdx, b.proof(idx), x.evm, x.key), x.cls)
+			add(item(sb.version, b.height, uint32(idx), x.tx.raw, sb.outIdx, b.proof(idx), sb.evm, sb.key), sb.cls)
+			cls += "+both-outputs-clean"
+			n, cleanBatch = 0, true
+			break
 		}
 	}
 	for i := 0; i < n; i++ {
@@ -828,7 +854,7 @@ func (s *bitcoinStream) genDeposits(r *tr.Rng) {
 			cls += "+dup-in-batch"
 		}
 	}
-	if r.Chance(15) && len(s.pastDeps) > 0 { // duplicate across batches
+	if r.Chance(15) && len(s.pastDeps) > 0 && !cleanBatch { // duplicate across batches
 		it := s.pastDeps[r.Intn(len(s.pastDeps))]
 		items = append(items, it)
 		f := splitBar(it)
@@ -848,7 +874,7 @@ func (s *bitcoinStream) genDeposits(r *tr.Rng) {
 	for _, h := range hk {
 		hs = append(hs, fmt.Sprintf("%d|%s", h, tr.Hex(headers[h])))
 	}
-	switch r.Intn(25) {
+	switch r.Intn(pick(cleanBatch, 1000, 25)) + pick(cleanBatch, 3, 0) {
 	case 0:
 		if len(hs) > 0 {
 			hs = append(hs, hs[0])
@@ -969,7 +995,7 @@ func (s *bitcoinStream) genBridgeReq(r *tr.Rng) {
 	if r.Chance(20) {
 		min = append(min, fmt.Sprint(big[r.Intn(8)]))
 		cls += "+min"
-	} else if r.Chance(3) {
+	} else if r.Chance(3) && !s.genesisValidTax {
 		// deposits "paused" by a minimum no output can reach: any value of the 64-bit field is legal for the request decoder
 		min = append(min, fmt.Sprint(tr.Pick(r, uint64(1)<<63, 1<<63+1, 1<<64-1, 1<<63-1)))
 		cls += "+min-huge"
